@@ -71,6 +71,13 @@ CHECKS = {
    text="Every binary operator (+ - * / ** > >= < <= & |) in every operand arrangement (variable-variable, variable-scalar, scalar-variable, variable-ndarray), neg/abs, funceval/celleval/faceeval with 1..8 arguments and copy() are executed for CellVariables on 9 classes x 3 BC set-ups and FaceVariables on 9 classes, and all expression trees of the depth bound are enumerated; each result is compared with numpy on the interiors, operands must be byte-identical (they are read-only during the call), results must share no memory with operands, modifications must not propagate in either direction, and the result must carry the left-most variable operand's BCs with a consistent ghost layer. Exhaustive over the alphabet.",
    note="ndarray operands on the right only; user functions passed to *eval return new arrays; tree depth bounded (2 quick / 3 thorough).",
    ref="DESIGN.md 4/C14"),
+
+ "C03": dict(
+   engine="B-cfgsolve",
+   technique="configuration lattice enumerated to a deviation bound (kind per side in {N0,D,N,R,R2}, <=2 deviations from all-default plus uniform vectors; thorough: full product for d<=2) x periodic subsets x fields x the four ghost-computing operations, every boundary face checked against a loop-free reference relation",
+   text="For every grid instance of the bound every configuration of boundary kinds within the deviation bound, every periodic subset of the non-radial axes, generic and unit interior fields and each of construction / apply_BCs after edits / solvePDE / solveExplicitPDE is executed and every boundary face is checked: Robin relation with the metric factor, exact wrap on periodic axes and only there, plotprofile boundary entries, zero residual of the solver's boundary rows on the reported array, invariance under scaling (a,b,c). Exhaustive within the deviation bound.",
+   note="Only non-singular coefficient choices are generated (checked per face); quick uses deviation bound 2 (3-D solves: 1) and three spacing vectors per shape; one recorded finding (periodic axis with unequal end cells).",
+   ref="DESIGN.md 4/C03"),
 }
 NOT_YET = {}
 
